@@ -253,9 +253,20 @@ def run_shard(spec, ctx):
     @st.composite
     def pairs(draw):
         q = draw(gen.queries(3))
-        mode = draw(st.integers(0, 6))
+        mode = draw(st.integers(0, 7))
+        if mode == 7:
+            # plant a right-hand side whose hash collides with a neighbour's (CPython: hash(-1) == hash(-2)) somewhere in q
+            q = plant(draw, q, -1)
         q2 = perturb(draw, q, mode)
         return q, q2, mode
+
+    def plant(draw, q, value):
+        if q[0] == "leaf":
+            return ["leaf", "field", [["key", "a"]], ["cmp", draw(st.sampled_from(["==", "!=", "<", ">="])), value]]
+        if q[0] == "not":
+            return ["not", plant(draw, q[1], value)]
+        i = draw(st.integers(1, 2))
+        return [q[0], plant(draw, q[1], value) if i == 1 else q[1], plant(draw, q[2], value) if i == 2 else q[2]]
 
     def perturb(draw, q, mode):
         if mode == 0:
@@ -273,6 +284,8 @@ def run_shard(spec, ctx):
                 t[2] = t[2].astimezone(draw(gen.offsets()))
             elif mode == 4 and t[0] in ("matches", "search"):
                 t[0] = "search" if t[0] == "matches" else "matches"
+            elif mode == 7 and t[0] == "cmp" and attr == "field" and t[2] == -1 and isinstance(t[2], int):
+                t[2] = -2
             return ["leaf", attr, path, t]
         if q[0] == "not":
             return ["not", perturb(draw, q[1], mode)]
@@ -296,7 +309,7 @@ def run_shard(spec, ctx):
             for t in gen.TIMES[:4]:
                 for m in ("m1", "a,b"):
                     for tv in gen.TVALS[:5]:
-                        for fv in gen.FVALS[:6]:
+                        for fv in gen.FVALS[:6] + [-1, -2]:
                             p = {"time": t, "measurement": m, "tags": {"a": tv, "t x": "x"} if tv != "" else {}, "fields": {"a": fv, "_t": 2} if fv != 2 else {}}
                             pool_pts.append((p, gen.to_point(p)))
         e1 = safe_eq(a, b, q, q2)
